@@ -120,5 +120,43 @@ static inline void verif_udivmod(u64 n, u64 d)
 #  define VERIF_UMOD(n, d) ((d) ? (n) % (d) : (verif_native_exit(4, "division by zero"), 0ull))
 #endif
 
+/* SharedMemory::raw[i]: the DSP memory is 0x80000 bytes.  An access outside it is not a legal exit of the program.
+ * CUT build (functional contracts): the path ends with outcome CRASH; PROVE-OOB build (C18): it is a proof obligation.
+ *
+ * CBMC build: a 512 KiB symbolic array exhausts the SAT back end, so the memory is a FOOTPRINT abstraction: VERIF_MEM_CELLS
+ * byte cells at arbitrary (nondeterministic, hence universally quantified) addresses with arbitrary contents.  An access to an
+ * address outside the chosen footprint ends the path (not explored).  Every execution that touches at most VERIF_MEM_CELLS
+ * distinct bytes is covered by some choice of footprint, so an obligation over a function with a bounded footprint (one DMA
+ * element: 8 bytes; one load/store: 2 bytes) ranges over ALL memory contents and ALL addresses.  Listed under trusted_base. */
+#define VERIF_RAW_SIZE 0x80000ull
+#ifdef VERIF_CBMC
+#  ifndef VERIF_MEM_CELLS
+#    define VERIF_MEM_CELLS 12
+#  endif
+extern u64 verif_mem_addr[VERIF_MEM_CELLS];
+extern u8 verif_mem_val[VERIF_MEM_CELLS];
+#  define VERIF_MEM_FRAME(raw) __CPROVER_object_whole(verif_mem_val)   /* assigns-clause target standing for "the DSP memory" */
+static inline unsigned verif_mem_cell(u64 i)
+{
+#  ifdef VERIF_OOB_PROVE
+    __CPROVER_assert(i < VERIF_RAW_SIZE, "REPO-OOB access outside the 0x80000-byte DSP memory");
+    __CPROVER_assume(i < VERIF_RAW_SIZE);
+#  else
+    if (i >= VERIF_RAW_SIZE) { verif_outcome = VERIF_CRASH; __CPROVER_assume(0); }
+#  endif
+    unsigned k = VERIF_MEM_CELLS;
+#  define VERIF_CELL(n) if ((n) < VERIF_MEM_CELLS && k == VERIF_MEM_CELLS && verif_mem_addr[(n) < VERIF_MEM_CELLS ? (n) : 0] == i) k = (n);
+    VERIF_CELL(0) VERIF_CELL(1) VERIF_CELL(2) VERIF_CELL(3) VERIF_CELL(4) VERIF_CELL(5) VERIF_CELL(6) VERIF_CELL(7)
+    VERIF_CELL(8) VERIF_CELL(9) VERIF_CELL(10) VERIF_CELL(11) VERIF_CELL(12) VERIF_CELL(13) VERIF_CELL(14) VERIF_CELL(15)
+    __CPROVER_assume(k < VERIF_MEM_CELLS);        /* outside the chosen footprint: this choice of cells does not cover the execution */
+    return k;
+}
+static inline u8 VERIF_RAW_READ(const u8 *p, u64 i) { (void)p; return verif_mem_val[verif_mem_cell(i)]; }
+static inline void VERIF_RAW_WRITE(u8 *p, u64 i, u8 v) { (void)p; verif_mem_val[verif_mem_cell(i)] = v; }
+#else
+static inline u8 VERIF_RAW_READ(const u8 *p, u64 i) { if (i >= VERIF_RAW_SIZE) verif_native_exit(VERIF_CRASH, "access outside DSP memory"); return p[i]; }
+static inline void VERIF_RAW_WRITE(u8 *p, u64 i, u8 v) { if (i >= VERIF_RAW_SIZE) verif_native_exit(VERIF_CRASH, "access outside DSP memory"); p[i] = v; }
+#endif
+
 #define VERIF_ARR_EQ(a, b) (__builtin_memcmp(&(a), &(b), sizeof(a)) == 0)
 #endif
